@@ -252,6 +252,52 @@ func c13Run(c *core.Ctx) {
 			}
 		}
 	}
+	// tables that start with (or contain) a comment line or an empty line: limits
+	// count from the end of the second *record* line
+	for _, delim := range []string{",", "\t"} {
+		want := "text/csv"
+		if delim == "\t" {
+			want = "text/tab-separated-values"
+		}
+		rec := func(cells ...string) string { return strings.Join(cells, delim) }
+		for _, eol := range []string{"\n", "\r\n"} {
+			for _, lead := range [][]string{{"# exported by tool"}, {"# id" + delim + "name"}, {""}, {"#"}, {"# a", "# b"}, {"", "# c"}} {
+				if !c.Next() || c.Expired() {
+					continue
+				}
+				for _, mid := range []string{"", "# note", "#"} {
+					lines := append([]string{}, lead...)
+					lines = append(lines, rec("id", "name"), rec("1", "a"))
+					if mid != "" {
+						lines = append(lines, mid)
+					}
+					lines = append(lines, rec("2", "b"), rec("3", "c"))
+					doc := []byte(strings.Join(lines, eol) + eol)
+					// end of the second record line
+					e2 := 0
+					for i, l := range lines {
+						e2 += len(l) + len(eol)
+						if i == len(lead)+1 {
+							break
+						}
+					}
+					pos.In, pos.Strs[0] = doc, want
+					c.R.States++
+					limits := []uint32{0, uint32(len(doc) + 1)}
+					for l := e2; l <= len(doc); l++ {
+						limits = append(limits, uint32(l))
+					}
+					for _, l := range limits {
+						pos.Limit = l
+						c.R.Transitions++
+						c.R.Evals++
+						c.Check(pos)
+					}
+					c.SampleCase("P1:leading-comment-or-blank", pos)
+				}
+			}
+		}
+	}
 	// TSV tables whose cells hold commas in a ragged way (so that the CSV
 	// reading of the same bytes aborts in the middle and TSV must still win)
 	for r := 3; r <= 5; r++ {
